@@ -29,11 +29,14 @@ class Macro(AbstractGate):
         return f"Macro({repr(self.name)}, {self.parameters}, {self.body})"
 
     def __eq__(self, other):
-        return (
-            self.name == other.name
-            and self.parameters == other.parameters
-            and self.body == other.body
-        )
+        try:
+            return (
+                self.name == other.name
+                and self.parameters == other.parameters
+                and self.body == other.body
+            )
+        except AttributeError:
+            return False
 
     @property
     def body(self):
